@@ -226,11 +226,13 @@ class SignatureInfo:
         param = self.parameters[argument]
     else:
       assert isinstance(argument, int)
-      if (
-          self.var_positional_start is not None
-          and argument < self.var_positional_start
+      params = list(self.parameters.values())
+      # An index addresses a positional parameter; with *args, indices from
+      # `var_positional_start` on address variadic values (no defaults).
+      if 0 <= argument < len(params) and params[argument].kind in (
+          inspect.Parameter.POSITIONAL_ONLY,
+          inspect.Parameter.POSITIONAL_OR_KEYWORD,
       ):
-        params = list(self.parameters.values())
         param = params[argument]
     if param and param.default is not param.empty:
       value = param.default
